@@ -413,6 +413,9 @@ func VerifC13_SecondTaskHandOff() {
 	vQuiesce()
 	lateKind := vChoice("late", 2)
 	c13At, c13Done = vChoice("writeStep", c13Steps), false
+	// the shared watch is live (its gate was opened by task A): the notification of the late
+	// write is dispatched at once - while B is still inside its start sequence - or later
+	atOnce := vBool("notificationDispatchedAtOnce")
 	c13Write = func() {
 		if lateKind == 0 {
 			etcd.putCollection(2, 50, "t", pb.CollectionState_CollectionCreating, 2000)
@@ -420,6 +423,9 @@ func VerifC13_SecondTaskHandOff() {
 		} else {
 			etcd.putPartition(40, 402, "p2", pb.PartitionState_PartitionCreating)
 			etcd.putPartition(40, 402, "p2", pb.PartitionState_PartitionCreated)
+		}
+		if atOnce {
+			vQuiesce()
 		}
 	}
 	c13Inject(c13BeforeStart)
